@@ -389,5 +389,16 @@ def run(ctx):
     check_perrec(ctx, prog)
     check_init(ctx, prog)
     check_ids(ctx, prog)
+    from rules import r8extract
+    ctx.rule("R8.extract", "extract_reqs selects exactly the requests named by the non-NULL ids (bounded)")
+    wprog = ctx.program(names=["ncmpio_wait.c"])
+    unit = list(wprog.units.values())[0]
+    def mac(nm):
+        try:
+            return int(unit.macros[nm].strip("() "), 0)
+        except Exception:
+            raise AnalysisBroken("macro %s not found / not a constant" % nm)
+    ne = r8extract.check(ctx, ctx.need_fn(wprog, "extract_reqs"), "R8.extract", mac("NC_REQ_TO_FREE"), mac("NC_REQ_NULL"))
+    ctx.require(ne >= 500, "R8.extract: only %d cells evaluated" % ne)
     ctx.rule("R5.growby", "sorted queue insertion: growth, element shift and nonlead_off adjustment use one amount")
     check_growby(ctx, prog)
